@@ -35,7 +35,17 @@ type GhostUpdate struct {
 	Src    string
 }
 
+type AssertAt struct {
+	Anchor string
+	Label  string
+	Text   string
+	E      Expr
+	Src    string
+	Hits   int
+}
+
 type Contract struct {
+	Asserts    []AssertAt
 	Pkg        string // import path
 	Func       string // isNewMaster | Server.runElection | RIB.canResolve$1
 	Requires   []Clause
@@ -142,7 +152,7 @@ func (s *Specs) LoadContractFile(path, pkgPath string, isGo bool) {
 			first = t[:j]
 		}
 		switch first {
-		case "unit", "requires", "ensures", "assigns", "loop", "ghost", "at", "trusted", "inline", "extern", "pred", "ghostfn", "package", "guarded_by", "holds", "acquires", "props", "why", "fnfield", "ghostvar", "region":
+		case "unit", "requires", "ensures", "assigns", "loop", "ghost", "at", "trusted", "inline", "extern", "pred", "ghostfn", "package", "guarded_by", "holds", "acquires", "props", "why", "fnfield", "ghostvar", "region", "assert":
 			logical = append(logical, ll{t, i + 1})
 		default:
 			if len(logical) == 0 {
@@ -336,6 +346,37 @@ func (s *Specs) LoadContractFile(path, pkgPath string, isGo bool) {
 				continue
 			}
 			cur.Ghosts = append(cur.Ghosts, GhostUpdate{Anchor: anchor, Var: v, Text: et, E: e, Src: src})
+		case "assert":
+			// assert at "<anchor>" [label] expr
+			if cur == nil {
+				errf(l.n, "clause outside unit")
+				continue
+			}
+			r2 := strings.TrimSpace(rest)
+			if !strings.HasPrefix(r2, "at ") {
+				errf(l.n, "assert wants: assert at \"anchor\" [label] expr")
+				continue
+			}
+			r2 = strings.TrimSpace(r2[3:])
+			if len(r2) == 0 || r2[0] != '"' {
+				errf(l.n, "anchor must be quoted")
+				continue
+			}
+			j := strings.Index(r2[1:], `"`)
+			anchor := r2[1 : 1+j]
+			r2 = strings.TrimSpace(r2[j+2:])
+			lbl := ""
+			if strings.HasPrefix(r2, "[") {
+				k := strings.Index(r2, "]")
+				lbl = r2[1:k]
+				r2 = strings.TrimSpace(r2[k+1:])
+			}
+			e, err := ParseExpr(r2)
+			if err != nil {
+				errf(l.n, "%v", err)
+				continue
+			}
+			cur.Asserts = append(cur.Asserts, AssertAt{Anchor: anchor, Label: lbl, Text: r2, E: e, Src: src})
 		case "holds":
 			if cur != nil {
 				cur.Holds = append(cur.Holds, strings.Fields(strings.ReplaceAll(rest, ",", " "))...)
